@@ -9,6 +9,8 @@ Hypothesis-drawn programs.
 
 from __future__ import annotations
 
+import collections
+
 from hypothesis import strategies as st
 
 from vlib import runner
@@ -20,8 +22,8 @@ LEVEL = "exploration"
 DESIGN_REF = "DESIGN.md §3.2, §4 C17"
 RULE = (
     "cases = (program: puts [(gap, delayed?)], removes [(gap, target element)], consumer think time, optional early "
-    "close time; schedule).  Gaps from {0, d/2, d-eps, d, d+eps}, d = 0.5, eps = 2^-10.  Exhaustive part: DFS over all "
-    "schedules with <= k preemptions (k=1 quick, 2 thorough) of 8 fixed programs, line-level scheduling points in "
+    "close time, optional time spent in remove()'s predicate while the queue is held; schedule).  Gaps from {0, d/2, d-eps, d, d+eps}, d = 0.5, eps = 2^-10.  Exhaustive part: DFS over all "
+    "schedules with <= k preemptions (k=1 quick, 2 thorough) of 9 fixed programs, line-level scheduling points in "
     "delayed_queue.py; random part: Hypothesis programs x random schedules (<= 3 preemptions at drawn positions).  "
     "non-trivial = a remove() or close() overlaps a get() call in the schedule, or a gap lies within eps of d; "
     "distinct = digest of (program, schedule decisions)"
@@ -43,6 +45,15 @@ def make_main(prog):
     def main(s):
         q = W.delayed_queue.DelayedQueue(D)
         now = lambda: s.now  # noqa: E731
+        if type(getattr(q, "_queue", None)) is collections.deque:
+            # "since insertion": the moment an element enters the queue is recorded by the container itself
+
+            class Recording(collections.deque):
+                def append(self, item):
+                    s.record("inserted", (item[0], now()))
+                    super().append(item)
+
+            q._queue = Recording(q._queue)
 
         def producer():
             for i, (gap, delayed) in enumerate(prog["puts"]):
@@ -67,7 +78,7 @@ def make_main(prog):
                 if gap:
                     tm.sleep(gap)
                 s.record("remove_call", (target, now()))
-                x = q.remove(lambda e: e == target)
+                x = q.remove((lambda e: e == target) if not prog.get("pred_time") else (lambda e: (tm.sleep(prog["pred_time"]), e == target)[1]))
                 s.record("remove_ret", (target, x, now()))
 
         def closer():
@@ -83,7 +94,7 @@ def make_main(prog):
             ts.append(th.Thread(target=closer, name="closer"))
         for t in ts:
             t.start()
-        total = sum(g for g, _ in prog["puts"]) + sum(g for g, _ in prog["removes"]) + (prog.get("close_at") or 0)
+        total = sum(g for g, _ in prog["puts"]) + sum(g for g, _ in prog["removes"]) + (prog.get("close_at") or 0) + (prog.get("pred_time") or 0) * len(prog["removes"]) * (len(prog["puts"]) + 1)
         tm.sleep(total + 3 * D + len(prog["puts"]) * (prog["think"] or 0) + 1)
         s.record("settled", now())
         if prog.get("close_at") is None:
@@ -104,6 +115,7 @@ def check(prog, r, s):
         raise Violation(f"{v[1]} (program {prog})", v[0])
     log = s.log
     put_t = {}
+    ins_t = {}
     delayed = {}
     gets = []  # (value, time, call_time)
     removed = []
@@ -115,6 +127,8 @@ def check(prog, r, s):
         if tag == "put_call":
             put_t[p[0]] = p[2]
             delayed[p[0]] = p[1]
+        elif tag == "inserted":
+            ins_t[p[0]] = p[1]
         elif tag == "get_call":
             call_t = p
             open_get = seq
@@ -144,14 +158,15 @@ def check(prog, r, s):
     if got != sorted(got):
         raise Violation(f"get() returned elements out of put order: {got} (program {prog})", "order")
     for x, t, ct in gets:
-        if x is not None and delayed[x] and t < put_t[x] + D:
-            raise Violation(f"delayed element {x} put at {put_t[x]} was returned at {t} < {put_t[x] + D} (program {prog})", "early")
+        t_in = ins_t.get(x, put_t.get(x))  # the insertion, or - if the container could not be watched - the call of put()
+        if x is not None and delayed[x] and t < t_in + D:
+            raise Violation(f"delayed element {x} (put() called at {put_t[x]}, inserted at {t_in}) was returned at {t} < {t_in + D} (program {prog})", "early")
     early_close = prog.get("close_at") is not None
     if not early_close:
         missing = sorted(set(put_t) - set(handed))
         if missing:
             raise Violation(f"elements {missing} were neither returned by get() nor by remove() although the consumer kept calling get() until close() (gets {got}, removes {removed}; program {prog})", "lost")
-        if not prog["think"]:
+        if not prog["think"] and not prog.get("pred_time"):
             for x, t, ct in gets:
                 if x is None:
                     continue
@@ -183,6 +198,8 @@ FIXED = [
     # a put() and a remove() that has to scan past a waiting delayed element become runnable at the same instant
     {"puts": [(0.0, True), (D / 2, False)], "removes": [(D / 2, 1)], "think": 0, "close_at": None},
     {"puts": [(0.0, True), (0.0, True), (D / 2, True)], "removes": [(D / 2, 2), (0.0, 1)], "think": 0, "close_at": None},
+    # remove() with a slow predicate holds the queue for a while: a put() that had to wait counts from its insertion
+    {"puts": [(0.0, True), (D / 2, True)], "removes": [(D / 2 - EPS, 1)], "think": 0, "close_at": None, "pred_time": D},
 ]
 
 
@@ -196,6 +213,7 @@ def programs(draw):
         "removes": removes,
         "think": draw(st.sampled_from([0, 0, D / 2])),
         "close_at": draw(st.sampled_from([None, None, None, 0.0, D / 2, D, D + EPS, 2 * D])),
+        "pred_time": draw(st.sampled_from([0, 0, 0, D / 2, D])) if removes else 0,
     }
 
 
